@@ -176,6 +176,20 @@ fn encrypt_chunks<T: Read, U: Write>(
     Ok(())
 }
 
+/// Verification hook (off unless built with `--cfg finfet_kestrel_verif`):
+/// exposes the private chunk encryption loop so a harness can choose the
+/// key, the AAD prefix and a small chunk size.
+#[cfg(finfet_kestrel_verif)]
+pub fn verif_encrypt_chunks<T: Read, U: Write>(
+    plaintext: &mut T,
+    ciphertext: &mut U,
+    key: &[u8],
+    aad: &[u8],
+    chunk_size: u32,
+) -> Result<(), EncryptError> {
+    encrypt_chunks(plaintext, ciphertext, key, aad, chunk_size)
+}
+
 fn read_err(err: std::io::Error) -> EncryptError {
     EncryptError::IORead(err)
 }
